@@ -91,8 +91,11 @@ def write_chain(chain: MHLChain, new_hash_list: MHLHashList):
 
 
 def _write_xml_element_to_file(file, xml_element, indent: str):
-    xml_string = etree.tostring(xml_element, pretty_print=True, encoding="unicode")
-    _write_xml_string_to_file(file, xml_string, indent)
+    # indent the element tree, not the serialised text: indenting the text line by line would also insert the indent
+    # after every line break character (e.g. "\n" or U+2028) inside a path, comment or pattern
+    etree.indent(xml_element, space="  ", level=len(indent) // 2)
+    xml_string = indent + etree.tostring(xml_element, encoding="unicode") + "\n"
+    file.write(xml_string.encode("utf-8"))
 
 
 def _write_xml_string_to_file(file, xml_string: str, indent: str):
